@@ -99,6 +99,10 @@ def run(F, ck, tier):
     # R11.5 (shared with C10)
     sub = c09._Sub(ck, 'R11.5')
     c10.run(F, _Proxy(ck, 'R11.5'), 'quick')
+    # R11.6 exact pairing in STARK witness assignment
+    ck.rule('R11.6', 'STARK witness assignment pairs targets with proof values exactly (zip_eq / fixed arrays / guard rejecting surplus values) and does not drop an optional part the circuit has no target for')
+    from . import assign
+    assign.check(F, ck, 'R11.6', entry_q='set_stark_proof_with_pis_target', crate='starky', floor=15)
     ck.decided += ['every native STARK verifier obligation has an in-circuit twin', 'in-circuit STARK transcript = native', 'STARK proof targets fully assigned', 'variable-degree FRI circuit carries all FRI checks', 'lookup/CTL evaluator agreement']
     ck.undecided += ['equality of accepted sets', 'numeric correctness of the degree-selector arithmetic (random access over domain sizes)']
     return 'Decides structural necessary conditions of C11: twin obligations, transcript agreement, witness assignment coverage, variable-degree FRI obligations, evaluator agreement.'
